@@ -11,6 +11,7 @@ import (
 	"math"
 	"net"
 	"reflect"
+	"sort"
 	"strconv"
 	"strings"
 	"time"
@@ -818,6 +819,10 @@ func errorsNew(s string) error { return plainErr{s} }
 // Describe is the JSON twin of a primitive (for samples / replays).
 func (p Prim) Describe() interface{} {
 	switch v := p.V.(type) {
+	case json.RawMessage:
+		return map[string]interface{}{"method": p.M, "arg": strings.ToValidUTF8(descValue(v), "?")}
+	case *json.RawMessage:
+		return map[string]interface{}{"method": p.M, "arg": strings.ToValidUTF8(descValue(v), "?")}
 	case time.Time:
 		return map[string]interface{}{"method": p.M, "arg": describeTime(v)}
 	case []time.Time:
@@ -897,3 +902,187 @@ var ExtremeZoneOffsets = []int{86399, -86399, 86400, -86400, 359999, -359999, 36
 
 // YearTime: a fixed month / day / clock in the given year (UTC)
 func YearTime(year int) time.Time { return time.Date(year, time.March, 4, 5, 6, 7, 0, time.UTC) }
+
+// ---------------------------------------------------------------- json.Marshaler / TextMarshaler values
+// Values whose own method produces the JSON (or the text) that ends up in the event when they are given to
+// Interface / Any / Array.Interface / the default case of Fields / as an ErrorMarshalFunc answer.  The default
+// InterfaceMarshalFunc hands them to encoding/json, which calls the method, VALIDATES what it returns and re-emits it
+// compacted (no insignificant white space: no newline, tab or carriage return of a pretty-printed document survives),
+// quotes and escapes the text of a TextMarshaler, and turns a method error or an invalid result into an error (which
+// zerolog logs as a "marshaling error: ..." string).  A result that is valid JSON is not an excluded fragment,
+// however it is laid out.
+
+// indentV: MarshalJSON (value receiver) pretty-prints with json.MarshalIndent
+type indentV struct {
+	Name  string
+	Count int
+	Tags  []string
+}
+
+func (v indentV) MarshalJSON() ([]byte, error) {
+	type plain indentV
+	return json.MarshalIndent(plain(v), "", "  ")
+}
+
+// indentP: MarshalJSON on the pointer receiver, prefix and tab indentation
+type indentP struct {
+	Hosts map[string]int
+	On    bool
+}
+
+func (v *indentP) MarshalJSON() ([]byte, error) {
+	if v == nil {
+		return []byte("null"), nil
+	}
+	type plain indentP
+	return json.MarshalIndent((*plain)(v), " ", "\t")
+}
+
+// fixedJSON: MarshalJSON returns the bytes it holds, or the error
+type fixedJSON struct {
+	out []byte
+	err error
+}
+
+func (v fixedJSON) MarshalJSON() ([]byte, error) { return v.out, v.err }
+
+// fixedText: an encoding.TextMarshaler (encoding/json logs its text as a JSON string)
+type fixedText struct {
+	out []byte
+	err error
+}
+
+func (v fixedText) MarshalText() ([]byte, error) { return v.out, v.err }
+
+// textKey: a map key type that is a TextMarshaler
+type textKey struct{ s string }
+
+func (k textKey) MarshalText() ([]byte, error) { return []byte(k.s), nil }
+
+type marshalErr struct{}
+
+func (marshalErr) Error() string { return "marshaler \"failed\"\n\tat line 2 \xff" }
+
+// holder: a struct with marshalers in its fields.  (GoString: the case descriptions print values with %#v, which
+// would show the address of a pointer held inside.)
+type holder struct {
+	Raw json.RawMessage  `json:"raw"`
+	Ptr *json.RawMessage `json:"ptr"`
+	Any interface{}      `json:"any"`
+}
+
+func (holder) GoString() string {
+	return "progs.holder{Raw: pretty-printed RawMessage, Ptr: &RawMessage with CR LF, Any: indentV}"
+}
+
+// descValue: %#v, but a pointer held inside a container is shown by what it points to, not by its address
+func descValue(v interface{}) string {
+	switch x := v.(type) {
+	case json.RawMessage:
+		if x == nil {
+			return "json.RawMessage(nil)"
+		}
+		return fmt.Sprintf("json.RawMessage(%q)", []byte(x))
+	case *json.RawMessage:
+		if x != nil {
+			return "&" + descValue(*x)
+		}
+	}
+	if rv := reflect.ValueOf(v); rv.IsValid() && rv.Kind() == reflect.Ptr && !rv.IsNil() {
+		return "&" + fmt.Sprintf("%#v", rv.Elem().Interface())
+	}
+	return fmt.Sprintf("%#v", v)
+}
+
+// WSlice, WMap, WStruct: a value inside a slice / a map / a struct field of interface type
+type WSlice []interface{}
+
+func (w WSlice) GoString() string {
+	xs := make([]string, len(w))
+	for i, e := range w {
+		xs[i] = descValue(e)
+	}
+	return "[]interface{}{" + strings.Join(xs, ", ") + "}"
+}
+
+type WMap map[string]interface{}
+
+func (w WMap) GoString() string {
+	keys := make([]string, 0, len(w))
+	for k := range w {
+		keys = append(keys, k)
+	}
+	sort.Strings(keys)
+	xs := make([]string, len(keys))
+	for i, k := range keys {
+		xs[i] = fmt.Sprintf("%q: %s", k, descValue(w[k]))
+	}
+	return "map[string]interface{}{" + strings.Join(xs, ", ") + "}"
+}
+
+type WStruct struct {
+	N int         `json:"n"`
+	V interface{} `json:"v"`
+	W interface{} `json:"w,omitempty"`
+}
+
+func (w WStruct) GoString() string {
+	return "struct{N int; V, W interface{}}{" + fmt.Sprint(w.N) + ", " + descValue(w.V) + ", " + descValue(w.W) + "}"
+}
+
+// MarshalerValue is one value of the table.  Invalid: its method returns something that is not valid JSON (an
+// excluded caller-supplied fragment: nothing is demanded of the line's well-formedness then, only that the call does
+// not panic and writes once).
+type MarshalerValue struct {
+	Name    string
+	V       interface{}
+	Invalid bool
+}
+
+const prettyDoc = "{\n\t\"retries\": 3,\n\t\"hosts\": [\n\t\t\"a\",\n\t\t\"b\"\n\t],\n\t\"nested\": {\n\t\t\"k\": null\n\t}\n}"
+
+// MarshalerValues: every kind of result a MarshalJSON / MarshalText method can hand back, through value and pointer,
+// nil and non-nil.
+func MarshalerValues() []MarshalerValue {
+	pretty := json.RawMessage(prettyDoc)
+	crlf := json.RawMessage(" \r\n [ 1 ,\r\n 2 , { \"a\" : \"b c\" } ] \r\n")
+	var nilRaw json.RawMessage
+	emptyRaw := json.RawMessage{}
+	return []MarshalerValue{
+		{"RawMessage compact", json.RawMessage(`{"a":1,"b":[true,null]}`), false},
+		{"RawMessage pretty-printed (newlines, tabs)", pretty, false},
+		{"*RawMessage pretty-printed", &pretty, false},
+		{"RawMessage with CR LF and spaces around every token", crlf, false},
+		{"RawMessage scalar with newlines around it", json.RawMessage("\n\"s\"\n"), false},
+		{"RawMessage number with spaces", json.RawMessage(" -0.5e+3\t"), false},
+		{"RawMessage whose strings hold escapes", json.RawMessage("{ \"k\\n\\u003c\" : \"a\\tb <>&\" }"), false},
+		{"RawMessage(nil)", nilRaw, false},
+		{"(*RawMessage)(nil)", (*json.RawMessage)(nil), false},
+		{"*RawMessage holding nil", &nilRaw, false},
+		{"RawMessage empty", emptyRaw, true},
+		{"MarshalIndent by value receiver", indentV{"nightly", 2, []string{"a", "b\n"}}, false},
+		{"MarshalIndent by value receiver, through a pointer", &indentV{"p", 0, nil}, false},
+		{"MarshalIndent by pointer receiver (prefix, tabs)", &indentP{map[string]int{"h1": 1, "h2": 2}, true}, false},
+		{"pointer-receiver marshaler given by value (method not in the value's method set)", indentP{map[string]int{"h": 1}, false}, false},
+		{"nil pointer of a pointer-receiver marshaler", (*indentP)(nil), false},
+		{"nil pointer of a value-receiver marshaler", (*indentV)(nil), false},
+		{"marshaler returning an error", fixedJSON{nil, marshalErr{}}, false},
+		{"marshaler returning output and an error", fixedJSON{[]byte("{\n}"), marshalErr{}}, false},
+		{"marshaler returning null with a newline", fixedJSON{[]byte("null\n"), nil}, false},
+		{"marshaler returning an empty object over three lines", fixedJSON{[]byte("{\n\n}"), nil}, false},
+		{"marshaler returning deeply indented arrays", fixedJSON{[]byte("[\n [\n  [\n   [ ]\n  ]\n ]\n]"), nil}, false},
+		{"marshaler returning nothing", fixedJSON{nil, nil}, true},
+		{"marshaler returning white space only", fixedJSON{[]byte(" \n\t"), nil}, true},
+		{"marshaler returning a truncated object", fixedJSON{[]byte("{\"a\":"), nil}, true},
+		{"marshaler returning two values", fixedJSON{[]byte("1\n2"), nil}, true},
+		{"marshaler returning a string with a raw newline inside", fixedJSON{[]byte("\"a\nb\""), nil}, true},
+		{"TextMarshaler with quote, backslash, newline, tab, ill-formed byte", fixedText{[]byte("line1\nline2\t\"q\" \\ \xff <&>"), nil}, false},
+		{"TextMarshaler returning an error", fixedText{[]byte("x"), marshalErr{}}, false},
+		{"TextMarshaler empty text", fixedText{nil, nil}, false},
+		{"map with TextMarshaler keys holding control bytes", map[textKey]int{{"k\n1"}: 1, {"k\t\"2"}: 2}, false},
+		{"time.Time (a Marshaler of the standard library)", time.Date(2024, 2, 29, 23, 59, 60, 123456789, time.FixedZone("", -5*3600)), false},
+		{"struct holding RawMessage, *RawMessage and an indenting marshaler", holder{pretty, &crlf, indentV{"in", 1, nil}}, false},
+		{"slice of marshalers", WSlice{pretty, &crlf, indentV{"e", 0, nil}, (*indentP)(nil), fixedText{[]byte("t\n"), nil}}, false},
+		{"map of marshalers", WMap{"p\n": pretty, "i": &indentP{nil, false}, "n": nilRaw}, false},
+	}
+}
